@@ -1496,7 +1496,16 @@ class TeX(object):
                 return dimen(sign * dimen(t))
             self.pushToken(t)
             break
-        num = dimen(sign * self.readDecimal() * self.readUnitOfMeasure(units=units))
+        value = sign * self.readDecimal()
+        unit = self.readUnitOfMeasure(units=units)
+        if abs(unit) >= 2e9:
+            # fil, fill and filll carry their order as an offset of 2, 4 or 6
+            # billion on the value: only the coefficient is scaled
+            order = 2e9 * (abs(unit) // 2e9)
+            if value < 0: num = dimen(value - order)
+            else: num = dimen(value + order)
+        else:
+            num = dimen(value * unit)
         ParameterCommand.enable()
         return num
 
